@@ -141,7 +141,9 @@ func c13Exec(method string, flusher bool, ops []int) (key string, bad string) {
 			wantN = m.write("c")
 		}
 		at := fmt.Sprintf("after step %d (%s)", step+1, c13OpNames[op])
-		if gotN != wantN {
+		// a HEAD writer may report the bytes as accepted (as net/http does) or as 0: the statement only
+		// fixes what is forwarded and what Size() reports
+		if gotN != wantN && !(method == http.MethodHead && wantN == 0) {
 			return "", fmt.Sprintf("%s: Write returned %d, model %d", at, gotN, wantN)
 		}
 		if w.Status() != m.status {
